@@ -168,9 +168,9 @@ async def _tcp_decode(stream, feed_chunks, read_buffer_size):
 
 
 def plan(tier, seed):
-    return [('byte-mode', 320 if tier == 'quick' else 9000),
-            ('tcp-reader', 160 if tier == 'quick' else 3000),
-            ('message-mode', 64 if tier == 'quick' else 1200)]
+    return [('byte-mode', 800 if tier == 'quick' else 9000),
+            ('tcp-reader', 400 if tier == 'quick' else 3000),
+            ('message-mode', 200 if tier == 'quick' else 1200)]
 
 
 def _sequence(rng, tier):
